@@ -546,6 +546,20 @@ SNIPPETS: list[str] = [
     "from m import (a,\n   b,\n   c as d)\nimport os.path, sys, undefined_mod\nfrom undefined_mod2.sub import thing\n",
     "def f(x) -> int:\n    if x:\n        return 's'\n    elif x > 1:\n        return None\n    else:\n        return\n",
     "while 1 + 's':\n    pass\nelse:\n    1 + 's'\nfor i in 's' + 1:\n    i + 's'\nelse:\n    2 + 's'\n",
+    # `# type: ignore` attribution over multi-line nodes (span_from_context uses end_line)
+    "i: int = lambda x: (\n    x)  # type: ignore[assignment]\nj: int = lambda x: (\n    x)\n",
+    "from typing import Callable\ndef g(f: Callable[[int], str]) -> None: ...\ng(lambda x:\n  x)  # type: ignore\n",
+    "x: int = (\n  's'\n)  # type: ignore\ny: int = [\n  1,\n]  # type: ignore[assignment]\nz: 'int' = f'{1}' \\\n  'a'  # type: ignore\n",
+    "def f(\n    a: int = 's',\n    b: str = 1,  # type: ignore\n) -> None: pass\n",
+    "@undefined  # type: ignore\ndef f(): pass\n@undefined2\ndef g(): pass  # type: ignore\n",
+    "if x:  # type: ignore\n    pass\nelif y:  # type: ignore\n    pass\nelif z:\n    pass\n",
+    "a = (1 +\n     's')  # type: ignore\nb = (1 +  # type: ignore\n     's')\nc = f(\n  1,\n  undefined)  # type: ignore\n",
+    "x = 1 if y else (\n   's' + 1)  # type: ignore\nfor i in (\n   1):  # type: ignore\n    pass\n",
+    "(a) + 's' * (b)\n(1) + 's'\nx = (1 + 's')\ny = ((1) + ('s'))\n(f)(1)\n(a).b\n",
+    "x = 1 and 's' and 2 + 's' and z\ny = a or b or c or 1 + 's'\n",
+    "def dec(f): return f\n@dec\ndef f(): pass\n@dec\ndef f(): pass\nclass A:\n    @dec\n    def m(self): pass\n    @dec\n    def m(self): pass\n",
+    "def f(*, k=1, j): pass\nf()\nf(j=1)\nf(k=2)\ndef g(a, /, b, *, c=1): pass\ng(1, 2)\ng(a=1, b=2)\ng(1, b=2, c=3, d=4)\n",
+    "while x:\n    y = 1\nelse:\n    y = 's' + 1\nfor i in x:\n    pass\nelse:\n    z: int = 's'\n",
 ]
 
 
@@ -678,9 +692,11 @@ class Findings:
     def __init__(self) -> None:
         self.items: dict[str, dict[str, Any]] = {}
         self.counts: dict[str, int] = {}
+        self.by_name: dict[str, set[str]] = {}
 
     def add(self, key: str, what: str, data: dict[str, Any]) -> None:
         self.counts[key] = self.counts.get(key, 0) + 1
+        self.by_name.setdefault(str(data.get("name")), set()).add(key)
         size = len(data.get("source", ""))
         cur = self.items.get(key)
         if cur is None or size < len(cur["data"].get("source", "")):
@@ -943,12 +959,20 @@ def search_stage(ctx: "vlib.Ctx", pool: Pool) -> Findings:
     leads: dict[str, int] = {}
     stats: dict[str, int] = {}
     corpus = build_corpus(ctx)
-    n_cases_parse = ctx.n(1500, len(corpus["cases"]))
+    if os.environ.get("C14_ONLY") == "snippets":   # development aid (mutation tests): the hand-written forms only
+        corpus["cases"] = corpus["cases"][:40]
+        corpus["own"] = corpus["own"][:2]
+        corpus["layouts"] = corpus["layouts"][:40]
+    if os.environ.get("C14_ONLY") == "snippets1":
+        corpus["cases"] = []
+        corpus["own"] = []
+        corpus["layouts"] = []
+    n_cases_parse = len(corpus["cases"])
     n_cases_check = ctx.n(260, 2600)
-    n_own_parse = ctx.n(40, len(corpus["own"]))
+    n_own_parse = ctx.n(60, len(corpus["own"]))
     n_own_check = ctx.n(4, 24)
     n_layout_check = ctx.n(60, len(corpus["layouts"]))
-    n_corrupt_src = ctx.n(150, 1200)
+    n_corrupt_src = ctx.n(500, 4000)
     per_src_corrupt = ctx.n(4, 6)
 
     # ---------------- programs for the parse level: (id, src, versions)
@@ -961,7 +985,7 @@ def search_stage(ctx: "vlib.Ctx", pool: Pool) -> Findings:
         progs.append((i, s, VERSIONS))
     for k, (i, s) in enumerate(corpus["layouts"]):
         progs.append((i, s, [VERSIONS[k % 6], [3, 12]] if VERSIONS[k % 6] != [3, 12] else [[3, 12]]))
-    base_for_corruption = [x for x in corpus["snippets"]] + corpus["cases"][:n_corrupt_src]
+    base_for_corruption = ([] if os.environ.get("C14_ONLY") == "snippets1" else [x for x in corpus["snippets"]]) + corpus["cases"][:n_corrupt_src]
     n_cor = 0
     for i, s in base_for_corruption:
         for kind, v in corruptions(s, rng, per_src_corrupt):
@@ -1028,7 +1052,10 @@ def search_stage(ctx: "vlib.Ctx", pool: Pool) -> Findings:
                     files[nm] = s
                 batches.append((files, [ver[0], ver[1]], flags))
     # 1. snippets under every version
-    add_batches([(i, s, v) for i, s in corpus["snippets"] for v in VERSIONS if open_in(i, v)], 40, [])
+    snip_vers = VERSIONS if not ctx.quick else [[3, 9], [3, 12], [3, 14]]
+    if os.environ.get("C14_ONLY") == "snippets1":
+        snip_vers = [[3, 12]]
+    add_batches([(i, s, v) for i, s in corpus["snippets"] for v in snip_vers if open_in(i, v)], 40, [])
     # 2. test-data cases: those with AST leads first, then the rest, one version each
     cs = [(i, s, vs[0]) for i, s, vs in progs[:n_cases_parse] if open_in(i, vs[0])]
     cs.sort(key=lambda x: -lead_srcs.get(x[0], 0))
@@ -1058,14 +1085,158 @@ def search_stage(ctx: "vlib.Ctx", pool: Pool) -> Findings:
     return F
 
 
+def shrink_all(ctx: "vlib.Ctx", pool: Pool, F: Findings, keys: list[str], max_rounds: int = 10) -> None:
+    """Line-based delta debugging of the witnesses of `keys`, all keys in lock step (one pool.map per round)."""
+    st: dict[str, dict[str, Any]] = {}
+    for k in keys:
+        d = F.items[k]["data"]
+        if "source" not in d or d["source"].count("\n") < 2:
+            continue
+        st[k] = {"lines": d["source"].split("\n"), "n": 2, "ver": [int(x) for x in d.get("python_version", "3.12").split(".")],
+                 "level": d.get("level", "parse"), "stub": str(d.get("name", "")).endswith(".pyi")}
+    for rnd in range(max_rounds):
+        active = [k for k, v in st.items() if not v.get("done")]
+        if not active:
+            break
+        cands: dict[str, list[tuple[str, str]]] = {}
+        uid = 0
+        for k in active:
+            v = st[k]
+            L = v["lines"]
+            n = min(v["n"], len(L))
+            size = max(1, len(L) // n)
+            cs = []
+            for a0 in range(0, len(L), size):
+                rest = L[:a0] + L[a0 + size:]
+                if rest and any(x.strip() for x in rest):
+                    uid += 1
+                    cs.append((f"c14s_{uid:05d}.py" + ("i" if v["stub"] else ""), "\n".join(rest)))
+            cands[k] = cs[:12]
+        ptasks = [{"kind": "parse", "programs": [{"name": nm, "src": src, "vers": [st[k]["ver"]]} for nm, src in cands[k]], "dump": False}
+                  for k in active]
+        pres = pool.map(ptasks, timeout=1800)
+        keysets: dict[str, set[str]] = {}
+        open_files: dict[str, dict[str, str]] = {}
+        for k, r in zip(active, pres):
+            FF = Findings()
+            for x, (nm, src) in zip(r.get("results", []), cands[k]):
+                for ver, pr in x.get("vers", {}).items():
+                    stt = classify_parse(nm, src, ver, pr, FF, {}, {})
+                    if stt == "open" and st[k]["level"] == "check":
+                        open_files.setdefault(k, {})[nm] = src
+            for nm, ks in FF.by_name.items():
+                keysets.setdefault(nm, set()).update(ks)
+        ck = [k for k in active if open_files.get(k)]
+        if ck:
+            FF = Findings()
+            run_check_batches(pool, [(open_files[k], st[k]["ver"], []) for k in ck], FF, {}, ctx)
+            for nm, ks in FF.by_name.items():
+                keysets.setdefault(nm, set()).update(ks)
+        for k in active:
+            v = st[k]
+            hit = next(((nm, src) for nm, src in cands[k] if k in keysets.get(nm, set())), None)
+            if hit is not None:
+                v["lines"] = hit[1].split("\n")
+                v["n"] = max(v["n"] - 1, 2)
+                if len(v["lines"]) < 2:
+                    v["done"] = True
+            elif v["n"] >= len(v["lines"]):
+                v["done"] = True
+            else:
+                v["n"] = min(len(v["lines"]), v["n"] * 2)
+    for k, v in st.items():
+        new = "\n".join(v["lines"])
+        d = F.items[k]["data"]
+        if len(new) < len(d["source"]):
+            d["source_before_shrinking_len"] = len(d["source"])
+            d["source"] = new
+            d["note"] = "source shrunk by line-based delta debugging; the recorded outputs are those of the original witness"
+
+
+CLAMP_HEADER = """From Coq Require Import ZArith List Bool.
+From Gen Require Import Clamp.
+Open Scope Z_scope.
+"""
+
+
+def clamp_stage(ctx: "vlib.Ctx", pool: Pool) -> None:
+    """Translator self-correspondence: Gen.Clamp.report_clamp (vm_compute) vs the real Errors.report."""
+    def o(v: int | None) -> str:
+        return "None" if v is None else f"(Some ({v}))"
+    tuples = [[l, c, el, ec] for l in (-1, 0, 1, 2, 5) for c in (None, -1, 0, 3) for el in (None, -1, 0, 1, 2, 5, 7)
+              for ec in (None, -1, 0, 3, 4, 9)]
+    rng = vlib.Rng(ctx.seed, "clamp")
+    for _ in range(ctx.n(100, 600)):
+        tuples.append([rng.randint(-2, 50), rng.choice([None, rng.randint(-2, 200)]), rng.choice([None, rng.randint(-2, 60)]),
+                       rng.choice([None, rng.randint(-2, 200)])])
+    r = pool.map([{"kind": "clamp", "tuples": tuples}], timeout=1200)[0]
+    if "results" not in r:
+        ctx.broke("C", "clamp: real Errors.report", json.dumps(r)[:1500])
+        return
+    out = ctx.eval_cases("clamp", CLAMP_HEADER, [f"report_clamp ({l}) {o(c)} {o(el)} {o(ec)}" for l, c, el, ec in tuples], per_file=500)
+    if out is None:
+        return
+    bad = 0
+    changed = 0
+    for t, real, m in zip(tuples, r["results"], out):
+        mm = [int(x) for x in re.findall(r"-?\d+", m)]
+        if mm != real:
+            bad += 1
+            if bad <= 3:
+                ctx.broke("C", "clamp translator self-correspondence", f"report{tuple(t)}: model {mm} real {real}", {"tuple": t})
+        if real != [t[0], t[1], t[2], t[3]]:
+            changed += 1
+        # the theorem's conclusion, observed on the real object
+        if not (real[2] >= real[0] and (real[2] != real[0] or real[3] > real[1])):
+            ctx.violation(f"clamp:{t}", f"Errors.report{tuple(t)} stores the malformed span {real}", {"tuple": t, "stored": real})
+    ctx.add("evaluations", len(tuples))
+    ctx.add("traces_validated_against_impl", len(tuples) - bad)
+    ctx.cov["clamp"] = {"tuples": len(tuples), "tuples_where_the_clamp_changes_something": changed, "mismatches": bad}
+    ctx.sample({"clamp_input": tuples[37], "stored": r["results"][37]})
+    ctx.log(f"C: clamp self-correspondence on {len(tuples)} tuples ({changed} changed by the clamp), mismatches={bad}")
+
+
 def run(ctx: "vlib.Ctx") -> None:
-    ctx.cov["rule"] = ("S: a case is a (program, target version) pair; non-trivial = at least one parser prints a diagnostic or "
-                       "the program is rejected; distinct = distinct source text")
+    from extractors import t14
+    from py2gallina import Unsupported
+    ctx.cov["rule"] = ("S: a case is a (program, target version) pair run under BOTH parsers; non-trivial = at least one parser prints a "
+                       "diagnostic or rejects the file; distinct = distinct source text.  C: fragment programs (exhaustive list of forms + "
+                       "seeded random), non-trivial = inside the fragment; clamp tuples: boundary grid + random")
+    ctx.assumptions += [
+        "PARTIAL: proved = (a) span clamp of Errors.report for all inputs, (b) agreement of the two converters (positions included) on "
+        "well-formed trees of a syntax fragment; every other construct and the whole type checker are covered by differential search only",
+        "the serializer (ast_serialize, external Rust binary) is modelled by `emit` for the fragment only; tie = token-exact comparison with "
+        "the real bytes on generated fragment programs (is_unreachable=false, i.e. no version/platform/TYPE_CHECKING tests in the fragment)",
+        "CPython 3.12 `ast` positions are the input of both models; librt.internal primitive codec (read_tag/int/str/bool) trusted",
+        "mypy's checker is a deterministic function of the parsed tree (C10); diagnostics compared textually",
+        "position validity: columns are UTF-8 byte offsets (CPython col_offset), a tab is one column, the position just after the last "
+        "character of a line counts as inside the line",
+    ]
+    # ---- T
+    try:
+        t14.generate()
+    except (Unsupported, Exception) as e:  # noqa: BLE001
+        ctx.broke("T", "t14 (Errors.report clamp -> gen/Clamp.v)", f"{type(e).__name__}: {e}")
+    # ---- P + A
+    ctx.prove("C14/Properties.v", ["C14", "gen", "lib"])
     pool = Pool(vlib.NPROC, ctx)
     try:
+        # ---- C
+        clamp_stage(ctx, pool)
+        frag_stage(ctx, pool)
+        # ---- S
         F = search_stage(ctx, pool)
     finally:
         pool.close()
+    known = {k["key"] for k in vlib.load_known() if k.get("property") == "C14"}
+    todo = [k for k in sorted(F.items) if (k not in known or os.environ.get("C14_SHRINK_ALL")) and len(F.items[k]["data"].get("source", "")) > 60]
+    if todo and not os.environ.get("C14_NO_SHRINK"):
+        ctx.log(f"S: shrinking the witnesses of {len(todo)} findings")
+        pool2 = Pool(vlib.NPROC, ctx)
+        try:
+            shrink_all(ctx, pool2, F, todo[:60], max_rounds=ctx.n(8, 14))
+        finally:
+            pool2.close()
     for k, it in sorted(F.items.items()):
         ctx.violation(k, it["what"], it["data"])
     if os.environ.get("C14_WRITE_FINDINGS"):
